@@ -7,11 +7,12 @@
 
 struct Content {
     std::string kind = "mix"; uint64_t seed = 1; int w = 64, h = 64, bd = 8, n = 10; int cut = -1; int val = 128;
-    int stride_pad = 0, stride_pad_c = 0, extra_rows = 0, pad_garbage = 0, scribble = 0, reuse_buffer = 0; uint64_t garbage_seed = 1;
+    int stride_pad = 0, stride_pad_c = 0, stride_pad_cr = 0, extra_rows = 0, pad_garbage = 0, scribble = 0, reuse_buffer = 0; uint64_t garbage_seed = 1;
 };
 inline void content_from_json(const J &j, Content &c) {
     c.kind = j.gets("kind", "mix"); c.seed = (uint64_t)j.geti("seed", 1); c.w = (int)j.geti("w", 64); c.h = (int)j.geti("h", 64); c.bd = (int)j.geti("bd", 8); c.n = (int)j.geti("n", 10);
     c.cut = (int)j.geti("cut", -1); c.val = (int)j.geti("val", 128); c.stride_pad = (int)j.geti("stride_pad", 0); c.stride_pad_c = (int)j.geti("stride_pad_c", c.stride_pad / 2);
+    c.stride_pad_cr = (int)j.geti("stride_pad_cr", c.stride_pad_c);   // the three planes have independent pitches
     c.extra_rows = (int)j.geti("extra_rows", 0); c.pad_garbage = (int)j.geti("pad_garbage", 0); c.scribble = (int)j.geti("scribble", 0); c.reuse_buffer = (int)j.geti("reuse_buffer", 0);
     c.garbage_seed = (uint64_t)j.geti("garbage_seed", 1);
 }
